@@ -51,7 +51,7 @@ type Result struct {
 }
 
 // TraceOn makes Run record every scheduling call (debugging of nondeterminism).
-var TraceOn bool
+var TraceOn = os.Getenv("VERIF_TRACE") != ""
 
 // Choices returns the choice vector of an execution.
 func (r *Result) Choices() []int {
